@@ -299,6 +299,15 @@ def class_jobs(seed, tier, start_run=1):
         jobs.append({"run": runno, "scen": sc, "sched": [{"a": "htlc", "i": 1}], "drain": True, "tag": "class", "payload": True,
                      "rand": {"seed": rng.getrandbits(40), "steps": 0}})
         runno += 1
+    # an invoice that states the amount 0, with an amount field that names another amount
+    zi = len(CLASS_INVS) + 1
+    for dv, dl in ((CLASS_A, -2), (1, 8), (CLASS_A, 3)):
+        cfg = dict(CFG_A)
+        h = H("h1", zi, 100, 100, cfg["h0"] + cfg["pdelta"] + 50, cfg["pdelta"] + 50, decl=dv, decl_len=dl)
+        sc = {"cfg": cfg, "invs": CLASS_INVS + [{"hash": "h1", "amt": 0, "zero": True}], "htlcs": [h], "probe": []}
+        jobs.append({"run": runno, "scen": sc, "sched": [{"a": "htlc", "i": 1}], "drain": True, "tag": "class-zero", "payload": True,
+                     "rand": {"seed": rng.getrandbits(40), "steps": 0}})
+        runno += 1
     # payment hashes that differ only a little from the hash the attached invoice is for
     for v in range(1, 12):
         for inv in (1, 2):
